@@ -10,7 +10,7 @@ def main():
     common.ensure_repo_on_path()
     d = os.path.join(os.path.dirname(__file__), 'props')
     for f in sorted(os.listdir(d)):
-        if f.startswith('c') and f.endswith('.py'):
+        if len(f) == 6 and f[0] == 'c' and f[1:3].isdigit() and f.endswith('.py'):
             mod = importlib.import_module('bv.props.' + f[:-3])
             prop = mod.PROPERTY('quick', 0)
             gen = prop.regen()
